@@ -24,7 +24,7 @@ CRASHY = False
 RUN_TIMEOUT = 300
 NO_SHRINK = {'program', 'prog', 'dim'}
 POOL_SEED = 20250927
-NPROG = {'quick': 14, 'thorough': 120}
+NPROG = {'quick': 15, 'thorough': 120}
 
 PROPS = {
     'C03': dict(
@@ -146,6 +146,10 @@ HANDCRAFTED = [
             _g(label='La', eqs=[['TInit', 'f', None, 2.0], ['TConv', 'f', None, 1.0]]),
             _g(label='Lb', cond=1, real=0, pre=1, eqs=[['TLoop', 'g', ['f', 'g'], 2.0], ['TConv', 'g', None, 3.0], ['TPost', 'g', None, 1.0]])]),
         _g(label='L1', eqs=[['TReduce', 'f', None, 1.0], ['TReduce', 'g', None, 2.0]])]),
+    # an iterated group with two loop pairs whose first pair is also the last pair of the group before it
+    dict(arrays=['f', 'g', 'k'], env=dict(thresh=[0.0]), groups=[
+        _g(eqs=[['TLoop', 'f', ['g'], 1.0]]),
+        _g(label='L1', iterate=1, min=2, max=3, eqs=[['TLoop', 'f', ['g', 'k'], 2.0], ['TFull', 'k', ['f', 'g'], 1.0], ['TConv', 'f', None, 1.0]])]),
     # destinations appearing first in later equations, no-source and sourced equations mixed, several py_initialize / reduce per group
     dict(arrays=['f', 'g', 'k'], groups=[
         _g(eqs=[['TLoopNoSrc', 'g', None, 1.0], ['TLoop', 'f', ['k', 'g'], 2.0], ['TPyInit', 'g', None, 3.0], ['TReduce', 'f', None, 1.0],
@@ -310,6 +314,16 @@ def build_equation(e, env, dx):
     return CLASSES[cls](dest=dest, sources=srcs, c=c)
 
 
+class _FalsyCondition(list):
+    def __init__(self, env, name):
+        list.__init__(self)
+        self._env = env
+        self._name = name
+
+    def __call__(self, t, dt):
+        return self._env.next_cond(self._name, t, dt)
+
+
 def build_groups(prog, env, dx):
     """-> (pysph Group list, mirror structure for the interpreter)"""
     from pysph.sph.equation import Group
@@ -328,7 +342,11 @@ def build_groups(prog, env, dx):
         if g['post']:
             kw['post'] = lambda name=name: env.log.append(('post', name))
         if g['cond']:
-            kw['condition'] = lambda t, dt, name=name: env.next_cond(name, t, dt)
+            if len(name) % 2:
+                kw['condition'] = lambda t, dt, name=name: env.next_cond(name, t, dt)
+            else:
+                # any callable is a legal condition, also an object whose truth value is False (an empty list subclass)
+                kw['condition'] = _FalsyCondition(env, name)
         if g['sub']:
             subs = [mk(sg, '%s_%d' % (name, i)) for i, sg in enumerate(g['sub'])]
             m['subs'] = [s[1] for s in subs]
